@@ -61,17 +61,32 @@ class CoopLock:
         return f"<CoopLock {self._real!r}>"
 
 
+_INTERNAL = ("jpsim.", "concurrent.", "multiprocessing", "asyncio", "logging", "queue")
+
+
 def _internal_caller() -> bool:
     """Locks the interpreter's own threading machinery (or this simulator) creates stay real locks:
     `threading._after_fork` re-creates `_active_limbo_lock` through the patched factory in every forked
-    worker, and a finishing client thread takes it in `Thread._delete` -- that must never be cooperative."""
+    worker, and a finishing client thread takes it in `Thread._delete` -- that must never be cooperative.
+
+    A lock `threading` creates *on behalf of* other code (the RLock inside a `Condition()` the library
+    makes and uses as a lock) belongs to that code: the decision is made by the first frame outside
+    `threading`."""
     import sys
 
     try:
-        mod = sys._getframe(2).f_globals.get("__name__", "")
+        f = sys._getframe(2)
     except ValueError:
         return False
-    return mod == "threading" or mod.startswith(("jpsim.", "concurrent.", "multiprocessing", "asyncio", "logging", "queue"))
+    mod = f.f_globals.get("__name__", "")
+    if mod != "threading":
+        return mod.startswith(_INTERNAL)
+    while f is not None and f.f_globals.get("__name__", "") == "threading":
+        f = f.f_back
+    if f is None:
+        return True  # thread bootstrap: nothing but threading on the stack
+    mod = f.f_globals.get("__name__", "")
+    return not mod.startswith("jsonpath")
 
 
 def _lock() -> Any:
